@@ -235,6 +235,15 @@ def gen_history(rng, cfg=None):
                 u['api'] = 'lib'
                 u['reuse'] = True
         rounds.append({'edits': eds, 'update': u})
+    if rng.random() < cfg.get('p_unlistable', 0.08):
+        # an object that cannot be listed (named pipe, socket, a name that is not valid UTF-8) appears in a visible
+        # directory: the update has to refuse, not to finish without it
+        d_ = rng.choice(info['dirs'])
+        if not any(c.startswith('.') for c in d_.split('/')):
+            kind_ = rng.choice(['fifo', 'socket', 'badname'])
+            p_ = (d_ + '/' if d_ else '') + ('caf\udce9.txt' if kind_ == 'badname' else 'odd-' + kind_)
+            rnd = rng.choice(rounds)
+            rnd['edits'] = list(rnd['edits']) + [{'m': 'add', 'p': p_, 'k': 'file' if kind_ == 'badname' else kind_, 'c': 'x'}]
     if hidden_listed is not None and rng.random() < 0.8:
         rnd = rng.choice(rounds)
         rnd['edits'] = list(rnd['edits']) + [{'m': 'rewrite', 'p': hidden_listed, 'c': GT.rand_content(rng) + ' changed'}]
